@@ -187,6 +187,7 @@ public:
     
     Operator& operator-=(Operator const& op)
     {
+        if(&op == this){ monomials.clear(); return *this; } // erasing while iterating over the same map
         bool is_new_monomial;
         monomials_map_t::iterator it;
         BOOST_FOREACH(const monomials_map_t::value_type& m, op.monomials) { 
